@@ -247,6 +247,32 @@ def run(ctx: Ctx) -> None:
                     if not torch.equal(y, ref):
                         ctx.violation("C13:dtype-value", "result differs from quantising the float32 copy", {**key, "layout": vname})
 
+    # ---- the process-wide default dtype is not an argument of quantise
+    old_default = torch.get_default_dtype()
+    try:
+        for (E, M) in [(5, 10), (4, 3), (6, 9), (3, 8), (8, 7), (2, 1)]:
+            f = FPFormat(E, M, "nearest")
+            mx = f.max_absolute_value
+            xs_ = torch.tensor([0.3, -1.7, mx, mx * (1 + 2.0 ** -12), mx * 1.5, -mx * 4, mx * (1 - 2.0 ** -(M + 2)),
+                                f.min_absolute_subnormal * 0.6, -f.min_absolute_normal * 1.3], dtype=torch.float32)
+            want = f.quantise(xs_)
+            want0 = f.quantise(torch.tensor(-mx * 2, dtype=torch.float32))
+            for dd in (torch.float64, torch.bfloat16, torch.float16):
+                key = {"E": E, "M": M, "default_dtype": str(dd)}
+                ctx.count(key, bucket="default-dtype")
+                try:
+                    torch.set_default_dtype(dd)
+                    with ctx.guard("C13:default-dtype", key):
+                        got = f.quantise(xs_)
+                        got0 = f.quantise(torch.tensor(-mx * 2, dtype=torch.float32))
+                        if got.dtype != torch.float32 or not torch.equal(got, want) or not torch.equal(got0, want0):
+                            ctx.violation("C13:default-dtype", "the result for a float32 tensor depends on torch's global default dtype",
+                                          key, {"got": got.tolist()[:6], "want": want.tolist()[:6]})
+                finally:
+                    torch.set_default_dtype(old_default)
+    finally:
+        torch.set_default_dtype(old_default)
+
     # ---- thorough: every float32 bit pattern for the FP8 formats, by block checksums on all cores
     if not quick and ctx.driver_ok:
         for (E, M) in [(4, 3), (5, 2)]:
